@@ -367,8 +367,15 @@ func runC09(p *engine.Prog, r *engine.Report) {
 }
 
 func unwrapIface(v ssa.Value) ssa.Value {
-	if mi, ok := v.(*ssa.MakeInterface); ok {
-		return mi.X
+	for i := 0; i < 4; i++ {
+		switch x := v.(type) {
+		case *ssa.MakeInterface:
+			v = x.X
+		case *ssa.ChangeInterface:
+			v = x.X
+		default:
+			return v
+		}
 	}
 	return v
 }
